@@ -1301,7 +1301,7 @@ func c11CtxFromCaller(p *Prog, r *Report, rule string) {
 				return true
 			}
 			sig, _ := fn.Type().(*types.Signature)
-			if sig == nil || sig.Recv() == nil || !strings.HasSuffix(sig.Recv().Type().String(), "StoreV1Client") {
+			if sig == nil || sig.Recv() == nil || !p.isStoreClientIface(sig.Recv().Type()) {
 				return true
 			}
 			n++
@@ -2917,4 +2917,25 @@ func bodyWritesState(p *Prog, h *FuncInfo) bool {
 		})
 	}
 	return w
+}
+
+// isStoreClientIface: the generated gRPC client interface, or a narrower interface of the module that it satisfies
+// (type txRPC interface { CommitTx(...); RollbackTx(...) }): a call through it is a call of the client.
+func (p *Prog) isStoreClientIface(t types.Type) bool {
+	if strings.HasSuffix(t.String(), "StoreV1Client") {
+		return true
+	}
+	it, ok := t.Underlying().(*types.Interface)
+	if !ok || it.NumMethods() == 0 {
+		return false
+	}
+	pkg := p.Pkg("internal/proto")
+	if pkg == nil {
+		return false
+	}
+	o := pkg.Types.Scope().Lookup("StoreV1Client")
+	if o == nil {
+		return false
+	}
+	return types.Implements(o.Type(), it)
 }
